@@ -12,21 +12,53 @@ import (
 type rng struct{ lo, hi uint64 }
 
 type facts struct {
-	r     map[int]rng // unsigned bounds by term id
-	terms map[int]*term.Term
-	memo  map[int]rng
-	bm    map[int]int8
-	vals  map[int][]uint64 // exact finite value sets by term id (from equalities and disjunctions of equalities)
-	empty bool             // some term's range became empty: the guard is unsatisfiable
-	check int8             // 0 = not yet checked, 1 = consistent, 2 = inconsistent
+	parent  *facts
+	depth   int
+	r       map[int]rng // unsigned bounds by term id set at this level (already intersected with the ancestors')
+	terms   map[int]*term.Term
+	memo    map[int]rng
+	bm      map[int]int8
+	vals    map[int][]uint64 // exact finite value sets by term id (from equalities and disjunctions of equalities)
+	empty   bool             // some term's range became empty: the guard is unsatisfiable
+	check   int8             // 0 = not yet checked, 1 = consistent, 2 = inconsistent
+	conj    []*term.Term     // all conjuncts covered by this chain (sorted by id)
+}
+
+func (f *facts) getR(id int) (rng, bool) {
+	for x := f; x != nil; x = x.parent {
+		if r, ok := x.r[id]; ok {
+			return r, true
+		}
+	}
+	return rng{}, false
+}
+
+func (f *facts) getVals(id int) ([]uint64, bool) {
+	for x := f; x != nil; x = x.parent {
+		if v, ok := x.vals[id]; ok {
+			return v, true
+		}
+	}
+	return nil, false
+}
+
+func (f *facts) getTerm(id int) *term.Term {
+	for x := f; x != nil; x = x.parent {
+		if t, ok := x.terms[id]; ok {
+			return t
+		}
+	}
+	return nil
 }
 
 // consistent reports false when the facts contradict the structure of the terms they constrain.
 func (f *facts) consistent() bool {
 	if f.check == 0 {
 		f.check = 1
-		for id, t := range f.terms {
-			_ = id
+		if f.parent != nil && !f.parent.consistent() {
+			f.empty = true
+		}
+		for _, t := range f.terms {
 			r := f.rangeOf(t)
 			if r.lo > r.hi {
 				f.empty = true
@@ -48,12 +80,62 @@ func wmask(w int) uint64 {
 
 var factsCache = map[int]*facts{}
 
+func sortedConj(g *term.Term) []*term.Term {
+	if g.Op == term.OAnd {
+		return g.Args
+	}
+	if g.IsTrue() {
+		return nil
+	}
+	return []*term.Term{g}
+}
+
 func factsOf(g *term.Term) *facts {
 	if f, ok := factsCache[g.ID]; ok {
 		return f
 	}
-	f := &facts{r: map[int]rng{}, terms: map[int]*term.Term{}, memo: map[int]rng{}, bm: map[int]int8{}, vals: map[int][]uint64{}}
+	f := newFacts(nil, sortedConj(g), sortedConj(g))
 	factsCache[g.ID] = f
+	return f
+}
+
+// factsExtend derives the facts of g from those of an ancestor guard when g only adds conjuncts.
+func factsExtend(pg *term.Term, pf *facts, g *term.Term) *facts {
+	if f, ok := factsCache[g.ID]; ok {
+		return f
+	}
+	if pf == nil || pf.depth > 40 {
+		return factsOf(g)
+	}
+	pc, gc := pf.conj, sortedConj(g)
+	var extra []*term.Term
+	i := 0
+	for _, c := range gc {
+		for i < len(pc) && pc[i].ID < c.ID {
+			// a conjunct of the ancestor is missing in g: not an extension
+			return factsOf(g)
+		}
+		if i < len(pc) && pc[i] == c {
+			i++
+			continue
+		}
+		extra = append(extra, c)
+	}
+	if i < len(pc) {
+		return factsOf(g)
+	}
+	_ = pg
+	f := newFacts(pf, extra, gc)
+	factsCache[g.ID] = f
+	return f
+}
+
+func newFacts(parent *facts, conj []*term.Term, all []*term.Term) *facts {
+	f := &facts{parent: parent, r: map[int]rng{}, terms: map[int]*term.Term{}, memo: map[int]rng{}, bm: map[int]int8{}, vals: map[int][]uint64{}, conj: all}
+	if parent != nil {
+		f.depth = parent.depth + 1
+		f.empty = parent.empty
+	}
 	type sb struct {
 		lo, hi int64
 		has    bool
@@ -64,7 +146,7 @@ func factsOf(g *term.Term) *facts {
 		if t.Sort.K != term.KBV || t.W() > 64 {
 			return
 		}
-		cur, ok := f.r[t.ID]
+		cur, ok := f.getR(t.ID)
 		if !ok {
 			cur = rng{0, wmask(t.W())}
 		}
@@ -96,12 +178,6 @@ func factsOf(g *term.Term) *facts {
 		if hi < s.hi {
 			s.hi = hi
 		}
-	}
-	var conj []*term.Term
-	if g.Op == term.OAnd {
-		conj = g.Args
-	} else {
-		conj = []*term.Term{g}
 	}
 	for _, c := range conj {
 		neg := false
@@ -226,7 +302,7 @@ func factsOf(g *term.Term) *facts {
 					}
 				}
 				if ok {
-					tight(subs[0].terms[id], u.lo, u.hi)
+					tight(subs[0].getTerm(id), u.lo, u.hi)
 				}
 			}
 			for id, v0 := range subs[0].vals {
@@ -252,7 +328,7 @@ func factsOf(g *term.Term) *facts {
 	}
 	for id, s := range sf {
 		if s.lo >= 0 && s.hi >= s.lo {
-			cur, ok := f.r[id]
+			cur, ok := f.getR(id)
 			if !ok {
 				cur = rng{0, wmask(s.w)}
 			}
@@ -270,7 +346,6 @@ func factsOf(g *term.Term) *facts {
 			f.empty = true
 		}
 	}
-	factsCache[g.ID] = f
 	return f
 }
 
@@ -293,7 +368,7 @@ func unionVals(a, b []uint64) []uint64 {
 
 // restrict intersects the finite value set known for a term.
 func (f *facts) restrict(id int, set []uint64) {
-	cur, ok := f.vals[id]
+	cur, ok := f.getVals(id)
 	if !ok {
 		f.vals[id] = set
 		return
@@ -428,7 +503,7 @@ func (f *facts) rangeOf(t *term.Term) rng {
 			}
 		}
 	}
-	if fr, ok := f.r[t.ID]; ok {
+	if fr, ok := f.getR(t.ID); ok {
 		if fr.lo > r.lo {
 			r.lo = fr.lo
 		}
@@ -514,7 +589,7 @@ func (f *facts) decide(t *term.Term) int8 {
 				x, k = k, x
 			}
 			if k.IsConst() {
-				if set, ok := f.vals[x.ID]; ok {
+				if set, ok := f.getVals(x.ID); ok {
 					in := false
 					for _, v := range set {
 						if v == k.Val {
